@@ -428,6 +428,12 @@ let apply_destructive_op (pre : superversion) (post : superversion) =
   | "clear" :: _ when changed ->
     bump "clears";
     List.iter (fun h -> if h.dead = None then h.dead <- Some g) !hist
+  | "clear" :: _ ->
+    (* clear() returned without publishing a new version (the unchanged crate always publishes
+       one): whatever was written before must nevertheless be gone for every later read *)
+    bump "clears_without_version";
+    let g' = List.fold_left (fun acc h -> if N.ltb acc h.e.seq0 then h.e.seq0 else acc) pre.sv_seq !hist in
+    List.iter (fun h -> if h.dead = None then h.dead <- Some g') !hist
   | "droprange" :: lo :: hi :: _ ->
     let lo = parse_bound lo and hi = parse_bound hi in
     let pre_ids = table_ids pre and post_ids = table_ids post in
